@@ -397,6 +397,8 @@ func main() {
 		{Font: "opentype:morx/Nine.ttf+GPOS", Text: []rune{1614}, RunStart: 0, RunEnd: 1, Dir: 3, Script: "Hang"},
 		{Font: "harfbuzz:harfbuzz_reference/text-rendering-tests/fonts/TestGVAR-Composite-Missing.ttf", Text: []rune{2509, 8204, 2503}, RunStart: 0, RunEnd: 3, Dir: 1, Script: "Beng"},
 		{Font: "opentype:toys/gpos/gpos3_font2.otf", Text: []rune{2381, 128512, 2364, 2367, 2352, 2364}, RunStart: 0, RunEnd: 6, Dir: 1, Script: "Deva"},
+		// a buffer of transparent characters only between Arabic letters, ProduceUnsafeToConcat set: applyArabicJoining called unsafeToConcat(-1, len)
+		{Font: "harfbuzz:harfbuzz_reference/aots/fonts/gpos_chaining3_next_glyph_f1.otf", Text: []rune{6070, 1614, 1605, 1605, 65039, 1604, 4096}, RunStart: 4, RunEnd: 5, Dir: 0, Script: "Arab", HB: true, Flags: 125, Level: 1},
 	}
 	for _, in := range regressions {
 		for _, ref := range fonts {
@@ -485,6 +487,9 @@ func main() {
 				in.HB = true
 				in.Dir &= 3
 				in.Flags = uint16(r.Intn(4))
+				// the other buffer flags (PreserveDefaultIgnorables, RemoveDefaultIgnorables, DoNotinsertDottedCircle,
+				// ProduceUnsafeToConcat, ProduceSafeToInsertTatweel), derived without consuming the random stream
+				in.Flags |= uint16((ti*7+len(text)*3+fi)%32) << 2
 				in.Level = uint8(r.Intn(3))
 				tags := []string{"liga", "kern", "smcp", "dlig", "calt", "frac", "ccmp", "rlig", "onum"}
 				nf := r.Intn(3)
